@@ -30,6 +30,8 @@ type env struct {
 	pP1M  *P1M
 	pP4M  *P4M
 	pP8M  *P8M
+	err   error
+	*limits
 	side  int64
 	tr    uint64 // trace bitmask
 	calls uint64 // order of helper calls: base-16 digits
@@ -44,6 +46,31 @@ func (e *env) f(i int) int { e.calls = e.calls<<4 | 1; return i }
 func (e *env) g(v int64) int64 { e.calls = e.calls<<4 | 2; e.side += v; return v }
 
 func (e *env) arrp() []int64 { return e.arr[:] }
+
+func (e *env) pa127() *[127]int8     { return &e.a127 }
+func (e *env) pa128() *[128]int8     { return &e.a128 }
+func (e *env) pa254() *[254]int8     { return &e.a254 }
+func (e *env) pa255() *[255]int8     { return &e.a255 }
+func (e *env) pa256() *[256]int8     { return &e.a256 }
+func (e *env) pa65535() *[65535]int8 { return &e.a65535 }
+func (e *env) pa65536() *[65536]int8 { return &e.a65536 }
+
+// arrays whose lengths sit at the limits of narrow index types (shared, not re-created per execution)
+type limits struct {
+	a127   [127]int8
+	a128   [128]int8
+	a254   [254]int8
+	a255   [255]int8
+	a256   [256]int8
+	a65535 [65535]int8
+	a65536 [65536]int8
+}
+
+var glimits limits
+
+type bErr struct{}
+
+func (bErr) Error() string { return "b" }
 
 var (
 	vP0   P0
@@ -112,7 +139,10 @@ func setup(e *env, ln, cp int, flags, dyn uint64) {
 			close(e.ch)
 		}
 	}
+	e.limits = &glimits
+	e.a127[126], e.a128[127], e.a254[253], e.a255[254], e.a256[255], e.a65535[65534], e.a65536[65535] = 1, 2, 3, 4, 5, 6, 7
 	if flags&FlagNilIface == 0 {
+		e.err = bErr{}
 		e.gi = &vP8
 		switch dyn {
 		case 0:
